@@ -179,16 +179,17 @@ impl Expansion<'_> {
             }
             .chain(&conv.tys)
             .map(|out_ty| {
-                // `&` binds tighter than `+`, so a trait object with several bounds has to be
-                // parenthesized before a reference to it can be spelled.
+                // A trait object keeps the meaning it has in the field only as an argument (and `&`
+                // binds tighter than the `+` of several bounds).
                 // `Self` in a field type means the deriving type, not the tuple implemented for.
                 let tys: Vec<_> = fields_tys
                     .validate_type(out_ty)?
-                    .map(|ty| match ty {
-                        syn::Type::TraitObject(obj) if obj.bounds.len() > 1 => {
-                            quote! { (#ty) }
+                    .map(|ty| {
+                        if ref_ {
+                            crate::utils::behind_reference(ty)
+                        } else {
+                            quote! { #ty }
                         }
-                        _ => quote! { #ty },
                     })
                     .map(|ty| crate::utils::replace_self(&ty, &self_ty))
                     .collect();
